@@ -175,12 +175,12 @@ func writerMain(args []string) int {
 		}
 	}
 	type straceRec struct {
-		File    string        `json:"file"`
-		Dir     string        `json:"dir"`
-		NewLen  int           `json:"newlen"`
-		OldLen  int           `json:"oldlen"`
-		Target  string        `json:"target"`
-		Sc      writeScenario `json:"scenario"`
+		File   string        `json:"file"`
+		Dir    string        `json:"dir"`
+		NewLen int           `json:"newlen"`
+		OldLen int           `json:"oldlen"`
+		Target string        `json:"target"`
+		Sc     writeScenario `json:"scenario"`
 	}
 	var straces []straceRec
 	pads := []int{0}
